@@ -78,10 +78,22 @@ def _writes_loopvar(loop: ast.For) -> bool:
     return False
 
 
+def _drop_counts(expr: ast.AST) -> ast.AST:
+    """*expr* without its `len(...)` / `str(len(...))` sub-expressions: a COUNT of a category renders none of its elements."""
+    class T(ast.NodeTransformer):
+        def visit_Call(self, n):
+            if isinstance(n.func, ast.Name) and n.func.id == "len":
+                return ast.Constant(value=0)
+            self.generic_visit(n)
+            return n
+    import copy
+    return T().visit(copy.deepcopy(expr))
+
+
 def sections(repo: Repo, qual: str, obj: str) -> dict[str, list]:
     """category -> list of (loop, guards) that render elements of report.<category>."""
     fn = repo.func(qual)
-    defs = _local_defs(fn)
+    defs = {k: _drop_counts(v) for k, v in _local_defs(fn).items()}
     out: dict[str, list] = {}
     for loop in [n for n in ast.walk(fn) if isinstance(n, ast.For)]:
         if isinstance(parent_of(loop), ast.For) and _attrs_in(loop.iter, obj) == set() and \
@@ -89,7 +101,7 @@ def sections(repo: Repo, qual: str, obj: str) -> dict[str, list]:
             continue  # inner loop over the outer element (files of a licence)
         if not _writes_loopvar(loop):
             continue
-        for attr in _expand(loop.iter, defs, obj):
+        for attr in _expand(_drop_counts(loop.iter), defs, obj):
             out.setdefault(attr, []).append(loop)
     return out
 
